@@ -42,3 +42,52 @@ Definition table_partitioner (name : option string) : partitioner :=
 Definition murmur3_class : string := "org.apache.cassandra.dht.Murmur3Partitioner".
 Definition cdc_class : string := "com.scylladb.dht.CDCPartitioner".
 Definition random_class : string := "org.apache.cassandra.dht.RandomPartitioner".
+
+(* ---- the chain from the metadata rows to the hasher of a prepared statement ---------------
+     scylla/src/cluster/metadata/fetching.rs  query_table_partitioners, query_tables
+     scylla/src/client/session.rs             Session::prepare, extract_partitioner_name *)
+
+(* one row of `SELECT keyspace_name, table_name, partitioner FROM system_schema.scylla_tables` *)
+Definition st_row : Type := (string * string) * option string.
+
+(* rows.try_collect::<HashMap<(keyspace, table), Option<String>>>(): a later row with the same
+   key replaces an earlier one; then `.remove(&(ks, table))` *)
+Fixpoint partitioners_get (rows : list st_row) (ks t : string) (acc : option (option string))
+  : option (option string) :=
+  match rows with
+  | [] => acc
+  | ((k, n), p) :: r =>
+      if (String.eqb k ks && String.eqb n t)%bool then partitioners_get r ks t (Some p)
+      else partitioners_get r ks t acc
+  end.
+
+(* Table.partitioner = all_partitioners.remove(&keyspace_and_table_name).unwrap_or_default();
+   [scylla_tables] = None when the query is answered with DbError::Invalid (Cassandra: the
+   table does not exist), which the driver turns into an empty map *)
+Definition table_meta_partitioner (scylla_tables : option (list st_row)) (ks t : string)
+  : option string :=
+  match scylla_tables with
+  | None => None
+  | Some rows => match partitioners_get rows ks t None with Some p => p | None => None end
+  end.
+
+(* Session::prepare: table_spec = the statement's table (None without bind columns),
+   in_metadata = keyspaces.get(ks)?.tables.get(table)? succeeds *)
+Definition prepared_partitioner (scylla_tables : option (list st_row)) (in_metadata : bool)
+    (table_spec : option (string * string)) : partitioner :=
+  match table_spec with
+  | None => PMurmur3
+  | Some (ks, t) =>
+      if in_metadata then table_partitioner (table_meta_partitioner scylla_tables ks t)
+      else PMurmur3
+  end.
+
+(* concrete names and rows used by the Examples of Props/C03.v *)
+Definition ex_ks : string := "ks".
+Definition ex_other : string := "other".
+Definition ex_log : string := "log".
+Definition ex_t : string := "t".
+Definition ex_u : string := "u".
+Definition ex_rows : list st_row :=
+  [((ex_ks, ex_log), Some murmur3_class); ((ex_ks, ex_t), None); ((ex_ks, ex_log), Some cdc_class);
+   ((ex_other, ex_log), Some murmur3_class)].
